@@ -17,6 +17,10 @@ CONFIGS = {
     'asan32': (f'-O1 -g -fno-omit-frame-pointer -fsanitize=address {UB} -U__SIZEOF_INT128__', '-DSK_ASAN', f'-fsanitize=address {UB}'),
     'asanfast': (f'-O1 -g -fno-omit-frame-pointer -fsanitize=address {UB} -DSAFE_FAST', '-DSK_ASAN', f'-fsanitize=address {UB}'),
     'tsan':   ('-O1 -g -fno-omit-frame-pointer -fsanitize=thread -DNDEBUG', '-DSK_TSAN', '-fsanitize=thread'),
+    # MemorySanitizer: fresh simulated-heap memory and C-stack locals are tracked as undefined, so a branch,
+    # address or output that depends on them is reported at the point of use (C07 "no uninitialised memory")
+    'msan':   ('-O1 -g -fno-omit-frame-pointer -fsanitize=memory', '-DSK_MSAN', '-fsanitize=memory'),
+    'msan32': ('-O1 -g -fno-omit-frame-pointer -fsanitize=memory -U__SIZEOF_INT128__', '-DSK_MSAN', '-fsanitize=memory'),
     'plain':  ('-O2 -g', '', ''),
     'plain32': ('-O2 -g -U__SIZEOF_INT128__', '', ''),
     'release': ('-O2 -g -DNDEBUG', '', ''),   # the build that ships: no ASSERTs, so output oracles decide alone
@@ -130,6 +134,8 @@ def build_engine(engine, config):
 def crash_detail(err):
     i = err.find('ERROR:')
     if i < 0:
+        i = err.find('WARNING: MemorySanitizer')
+    if i < 0:
         i = err.find('Assertion in')
     if i < 0:
         i = err.find('runtime error')
@@ -153,6 +159,15 @@ def classify_crash(rc, err):
             if '/src/' in fm.group(2) and '/sim/' not in fm.group(2):
                 fn = ':' + fm.group(1)
         return f'crash:asan:{m.group(1)}{fn}'
+    m = re.search(r'WARNING: MemorySanitizer: (\S+)', err)
+    if m:
+        fn = ''
+        first = err[m.end():]
+        first = first[:first.find('\n\n')] if '\n\n' in first else first
+        for fm in re.finditer(r'#\d+ 0x[0-9a-f]+ in (\S+) (\S+)', first):
+            if '/src/' in fm.group(2) and '/sim/' not in fm.group(2):
+                fn = ':' + fm.group(1)
+        return f'crash:msan:{m.group(1)}{fn}'
     m = re.search(r'ERROR: ThreadSanitizer: (\S+)', err)
     if m:
         fm = re.search(r'#0 (\S+) ', err[m.end():])
